@@ -23,6 +23,11 @@ Further dimensions (round 4):
     (file or in-memory); role 1 / 2 / 0 = AsyncFIXClient / AsyncFIXDummyServer / base constructor;
   * BYTES – `feed_bytes(chunks)` hands raw chunks to the library's own `socket_read_task` (receive buffer,
     decoder, `_process_message`), a final `b""` is the peer's death.
+  * FAULTS (round 5) – `arm_fault(site, k, exc)`: the k-th call (from now) of a collaborator raises ONCE and then
+    works again: site "M" on_message (the delivery is recorded first: the callback WAS called), "S" on_state_change,
+    "L" on_logon, "N" transport drain, "W" transport write; exc "exception" (RuntimeError), "reset"
+    (ConnectionResetError), "cancel" (asyncio.CancelledError – BaseException), "interrupt" (a KeyboardInterrupt-like
+    BaseException).  Unlike a kill the process lives on: `finally` clauses run and the journal keeps working.
 Nothing here calls the Lean model.
 """
 from __future__ import annotations
@@ -34,6 +39,10 @@ from . import sess_common as S
 
 class Kill(BaseException):
     pass
+
+
+class Interrupt(BaseException):
+    """a KeyboardInterrupt-like error raised by a collaborator"""
 
 
 class _ConnProxy:
@@ -57,6 +66,7 @@ class _KWriter:
         self.impl = impl
 
     def write(self, b):
+        self.impl.fault_point("W")
         self.impl.site("W-")
         self.impl.eff.append(("W", bytes(b)))
         self.impl.wire.append((self.impl.incarnation, bytes(b)))
@@ -64,6 +74,7 @@ class _KWriter:
 
     async def drain(self):
         self.impl.site("N-")
+        self.impl.fault_point("N")
         self.impl.site("N+")
 
     def close(self):
@@ -99,6 +110,7 @@ class RImpl(S.Impl):
         self.incarnation = 0
         self.plan, self.nsite, self.sites, self.killed, self.cur_op = None, 0, [], False, None
         self.kill_label = None
+        self.fault, self.fault_fired = None, False
         self.writer = _KWriter(self)
         self.new_file()
 
@@ -112,6 +124,23 @@ class RImpl(S.Impl):
         if self.plan is not None and i == self.plan:
             self.killed, self.kill_label, self.kill_eff = True, label, len(self.eff)
             raise Kill()
+
+    def arm_fault(self, site=None, k=0, exc="exception"):
+        """the k-th call from now of collaborator `site` raises once (None = disarm)"""
+        self.fault = None if site is None else {"site": site, "k": k, "exc": exc, "seen": 0}
+        self.fault_fired = False
+
+    def fault_point(self, site):
+        f = getattr(self, "fault", None)
+        if not f or f["site"] != site:
+            return
+        f["seen"] += 1
+        if f["seen"] - 1 == f["k"]:
+            self.fault = None
+            self.fault_fired = True
+            import asyncio
+            raise {"exception": RuntimeError("collaborator failed"), "reset": ConnectionResetError("reset by peer"),
+                   "cancel": asyncio.CancelledError(), "interrupt": Interrupt()}[f["exc"]]
 
     def arm(self, plan=None):
         self.plan, self.nsite, self.sites, self.killed, self.cur_op, self.kill_label = plan, 0, [], False, None, None
@@ -149,9 +178,18 @@ class RImpl(S.Impl):
         async def on_message(msg):
             impl.site("M-")
             eff.append(("D", msg))
+            impl.fault_point("M")
             impl.site("M+")
 
-        c.on_message = on_message
+        async def on_state_change(state):
+            eff.append(("S", int(state)))
+            impl.fault_point("S")
+
+        async def on_logon(healthy):
+            eff.append(("L", bool(healthy)))
+            impl.fault_point("L")
+
+        c.on_message, c.on_state_change, c.on_logon = on_message, on_state_change, on_logon
 
     # ---- journal file life cycle ---------------------------------------------------------------
     def _drop(self):
@@ -276,10 +314,15 @@ class RImpl(S.Impl):
         """apply one event; returns (effects, killed?).  With `plan` = site index the event is killed there."""
         del self.eff[:]
         self.arm(plan)
+        import asyncio
         try:
             self.apply(sr, ev)
         except Kill:
             pass
+        except asyncio.CancelledError:
+            self.eff.append(("R", "Cancelled"))     # escaped the entry point (the reader task would end here)
+        except Interrupt:
+            self.eff.append(("R", "Interrupt"))
         if self.killed:
             # callbacks that still ran while the kill propagated (`finally: _finalize_message`) saw a dead process
             del self.eff[self.kill_eff:]
@@ -305,6 +348,8 @@ class RImpl(S.Impl):
             pass
         except S._Abort as a:
             self.eff.append(("R", a.kind))
+        except Interrupt:
+            self.eff.append(("R", "Interrupt"))
         finally:
             self.log.mode = "msg"
         if c._socket_reader is not None:
